@@ -20,7 +20,8 @@ CHECKS = {
         "components, true of every Rust type), len_exact_token (all 26 token variants, after fix 6736830), exact_buffer; derived CborLen: len_exact_derived over the derive "
         "model, full (every accepted schema, every well-typed value; the former K2/KD1/K3 witnesses are positive obligations). Correspondence: `tenc` of the C01 corpus, `tokenc` of boundary/random token "
         "lists and `denc` of the generated derived types (all presence combinations): reported len must equal the bytes written, and both must equal the model's; attr-frontend (see C08): "
-        "the len components of the run-time probes (which cbor_len function is bound).",
+        "the len components of the run-time probes (which cbor_len function is bound); array-encoded types with few fields at indices 23..256 (the header is sized by the "
+        "highest present index) and the hand-written derived types of dextra.rs.",
    design="5/C07", technique="Lean 4 proof (same induction as C01; finite case split for tokens; derive model) + differential correspondence",
    note="the three defects of the derived CborLen (K2, KD1, K3) were repaired in /repo (d85a3d2, 36d21e9, 0196d88) and the model follows the repaired code; no known finding remains for C07"),
  "C03": dict(
@@ -65,7 +66,8 @@ CHECKS = {
         "data::Tag impl (typed_bare_tag characterises it: a head reader; typed_sound_statement_needs_exclusion shows the exclusion is necessary), under FitsSlice (as C06). "
         "interp_of_encode: the spec maps every encoder output back to the encoded value (cross-check against C01/C03). Integers: C05.int_accessor_exact; floats' values: C12; Size introspection: size_head/tail_sound. "
         "Correspondence: wire trees (all scalar shapes x widths x boundaries, containers at every width and indefinite, tags, chunked strings, random trees) x all 25 "
-        "accessors incl. non-matching ones, plus every strict prefix, typed decode of the 189 types on strict prefixes and re-framings, judged by the property's oracle computed from the tree, and compared with the model.",
+        "accessors incl. non-matching ones, plus every strict prefix, typed decode of the 189 types on strict prefixes and re-framings, judged by the property's oracle computed from the tree, and compared with the model; the typed iterators "
+        "array_iter / array_iter_with / map_iter behind nth, skip, step_by, take, last, count against the same script written with plain next() calls (no model op).",
    design="5/C04", technique="Lean 4 proof (head read-back lemmas; initial-byte classes; a compositional 'stable under input extension' relation over the decoder monad incl. fuelled loops; "
         "forward simulation of every Decode impl against a wire-tree interpreter by mutual structural induction over type descriptors, reusing C06 skip exactness) + differential correspondence with tree-derived oracle",
    note="FULL for the model: 'matching -> exact value and position', 'non-matching -> error, never a different value' and 'strict prefix -> end-of-input' are theorems for all accessors and for typed decoding. "
@@ -86,7 +88,8 @@ CHECKS = {
         "tokenizer_bounded (ARBITRARY bytes): Token::decode never panics and consumes >= 1 byte on success, the iterator's fuel is never exhausted, it yields tokens then at most one "
         "non-eoi error (last), and #items <= #bytes. half_roundtrip: f32->f16 of f16->f32 is the identity on all 65536 patterns except that signalling NaNs are quieted (kernel-evaluated table). "
         "Correspondence: wire trees (preferred and non-preferred, indefinite, chunked), all 65536 half patterns except signalling NaNs, all simple values, random token lists "
-        "(26 variants, boundary payloads), arbitrary bytes; judged by the property's own oracle computed from the tree / token list, and compared with the model.",
+        "(26 variants, boundary payloads), arbitrary bytes; judged by the property's own oracle computed from the tree / token list, and compared with the model; the three ways to obtain a tokenizer "
+        "(Decoder::tokens() at a position, Tokenizer::new, Tokenizer::from) must agree (no model op; registered tags such as 55799 first in the input included).",
    design="5/C11", technique="Lean 4 proof (per-head decode lemmas, mutual structural induction over wire trees, finite half-float table by decide +kernel) + differential correspondence with tree-derived oracle",
    note="Assumptions stated as hypotheses: token payloads are what the Rust types can hold (Token.ok, slice lengths < 2^64) and - the property's own assumption - an F16 token holds a "
         "half-representable f32; a signalling half NaN is quieted by the token's f32 payload (canon/quiet16), which is why token_value carries halfQuiet (token_value_canon does not). "
@@ -103,7 +106,8 @@ CHECKS = {
         "Correspondence: all byte strings up to 2 (3 thorough) bytes, all heads with extreme declared lengths, truncated/mutated valid "
         "items (real output must stay within 16*len+256 in a length-limited sink and equal the model's), wire trees whose rendering is compared with the notation rendered "
         "independently from the tree, and arrays / maps / tags (definite, indefinite, mixed) nested 10^3 .. 2*10^4 (thorough 4*10^5) deep, complete and cut, displayed on a thread with a "
-        "192 KiB stack (pending work must live on the heap, not on the call stack).",
+        "192 KiB stack (pending work must live on the heap, not on the call stack); the Display of Decoder::tokens() taken at a position against display of the suffix, and "
+        "arrays of 100..1000 tags / empty containers / chunked strings against the notation rendered from the tree.",
    design="5/C19", technique="Lean 4 proof (step function + termination measure + potential function over the control stack; abstract sequence lemmas and mutual induction over wire trees) + differential correspondence",
    note="Rust's {:e} float formatting and error message texts are parameters of the model (re-implemented / canonicalised in the orchestrator): renderedLength charges a fixed 32 per float "
         "piece and 128 per error text, and counts literal text in characters (every literal the printer writes is ASCII; string payloads are counted in bytes). Output is compared as a list of "
@@ -207,7 +211,8 @@ CHECKS = {
         "in the harness. Correspondence: the C08 corpus decoded from (o) the implementation's own bytes, (i) its encoding, (ii) re-framings (all struct / variant / Vec containers "
         "indefinite, all heads widened), (iii) top-level mutations (wrong / missing tag at four levels, dropped mandatory field, unknown variant), (iv) strict prefixes; oracle in "
         "the orchestrator (value, position, borrow flags, error class) and equality with the model; attr-frontend (see C08): the decode components of the run-time probes of every "
-        "accepted generated definition (which decode / nil functions are bound, absent fields, own bytes).",
+        "accepted generated definition (which decode / nil functions are bound, absent fields, own bytes); hand-written derived types with Box<Option<_>>, float, Option<f64> "
+        "and Cow<[u8]> (bytes codec) fields (harness/core/src/dextra.rs): round trip bit for bit, exactly consumed, len = bytes (no model op).",
    design="5/C09", technique="Lean 4 proof (slot invariant over the decode loops with per-index results, mutual structural induction, executable re-framing relation on wire trees) + "
         "generated-crate differential correspondence with in-orchestrator oracle",
    note="Re-framed input is a theorem for the relation `reframes`; what it leaves out of the unrestricted statement that `reframes` leaves out on purpose is chunked strings (rejected by the String / byte-string decoders by design). `reframes` is defined by recursion on the schema (it reads the tree "
@@ -260,7 +265,8 @@ CHECKS = {
         "magnitudes, no table). Correspondence: all half patterns, ~2^20 stratified f32 patterns (every exponent, every rounding tie shape) and f64 boundaries per-op against an "
         "orchestrator-side oracle (CPython struct codecs) and the model; blocks of 2^25 (quick) / all 2^32 (thorough) binary32 patterns through the real Encoder::f16 / Decoder::f64 / "
         "Decoder::f32 against an independent value-based reference inside the harness, hash-compared with the model; the Encode impls of f32 / f64 (what to_vec, containers and derived types "
-        "call; whatever width is written, the item must denote the identical value, a NaN its identical bits) and accessor sequences on ONE decoder (narrower accessors rejected, then the right one).",
+        "call; whatever width is written, the item must denote the identical value, a NaN its identical bits), accessor sequences on ONE decoder (narrower accessors rejected, then the right one), "
+        "and f32 / f64 / Option<f64> fields of hand-written derived types (array- and map-encoded structs, enum variants): every NaN payload and signed zero comes back bit for bit (no model op).",
    design="5/C12", technique="Lean 4 proof (finite tables by decide +kernel, exponent-class case analysis, grid-monotonicity argument for RNE, omega) + differential correspondence with independent oracles",
    note="the half crate's portable software path is what the pinned build uses on x86_64 (default-features = false) and what is modelled; its F16C/NEON paths are not exercised. "
         "NaN payload propagation is implementation-defined in IEEE 754: the oracle checks NaN-ness and sign, the exact payload is compared with the model only. "
@@ -280,7 +286,8 @@ CHECKS = {
         "untagged, judged by the property's own oracle in the orchestrator (independent encoder of the documented representation, reference well-formedness parser, de(ser v)==v, "
         "consumed==len, accepted re-framings, never-a-different-value on free re-framings) and compared with the model; bulk documents (130 / 300, thorough 127..1000, compound elements "
         "per container: tuples, fixed arrays, options, structs, enum values) so that state a (de)serialiser keeps per document is exercised; enum values directly followed by optional ones in one "
-        "array (a unit variant is a bare text: nothing closes it); strict prefixes and byte mutations against the model.",
+        "array (a unit variant is a bare text: nothing closes it); unknown struct fields holding items outside the bridge's data model (tags, undefined, simple values, big negatives, "
+        "chunked strings) where serde skips them (not behind Content); strict prefixes and byte mutations against the model.",
    design="5/C17", technique="Lean 4 proof (mutual structural induction over typing derivations, loop lemmas, finite decide tables for Decoder::type_of, reuse of the C03/C04/C05/C06 lemmas) + differential correspondence with in-orchestrator oracle",
    note="PARTIAL only in what the code does not do: the full statement (roundtrip_statement) is false on the pinned code in exactly two classes, recorded as known findings K6 (char behind "
         "serde's Content buffer) and K7 (unit `()` / untagged unit variant behind it), each with a machine-checked counterexample; everything else is proved (roundtrip_partial). Untagged enums "
@@ -295,7 +302,9 @@ CHECKS = {
         "interop_decode_canonical (the common bytes decode to v on both sides, consuming exactly the item), array_reframing_example (the 'or an error' is real). Correspondence: 43 shared "
         "types x boundary values: minicbor::to_vec vs minicbor_serde::to_vec vs the orchestrator's own encoder; minicbor::decode vs minicbor_serde on canonical bytes, re-framings "
         "(wider heads, indefinite containers, chunked strings), bulk documents (hundreds of tuples / fixed arrays / options in one document), a None at a distance inside a Some "
-        "(Option<Vec<Option<_>>>, Option<(Option<_>, _)>, Option<BTreeMap<_, Option<_>>>), strict prefixes and byte mutations, judged by the property's oracle and compared with the model.",
+        "(Option<Vec<Option<_>>>, Option<(Option<_>, _)>, Option<BTreeMap<_, Option<_>>>), strict prefixes and byte mutations, judged by the property's oracle and compared with the model; "
+        "borrowing targets (&str inside tuples / Vec / Option / BTreeMap) through both decoders on canonical, wide-head and chunked encodings, and BinaryHeap<u8 | i64 | String> "
+        "written by both codecs (identical bytes, the pushed multiset) — these two without a model op.",
    design="5/C18", technique="Lean 4 proof (mutual structural induction; compositional 'agree on success' relation over the decoder monad) + differential correspondence",
    note="serde's std impls for the shared types are modelled, not verified; Option directly inside Option is the properties' documented exclusion (Some(None) is null on both sides, they agree with each other)."),
  "C13": dict(
@@ -307,7 +316,9 @@ CHECKS = {
         "write_all calls (continuing after failures) the position equals the number of bytes accepted and the per-call outcomes follow the fits-what-is-left rule; failure is a write "
         "error, never a panic; exact-fit corollary. Correspondence: Encoder call chains and concrete typed values at every capacity 0..=len+1 in every sink kind with real canary "
         "bytes, and exhaustive short raw write_all sequences, judged by an orchestrator-side oracle (own encoder / own replay) and compared with the model line by line; the growable-vector entry points "
-        "minicbor::to_vec / to_vec_with on a thread with a history (after failed calls, after a big one, nested inside another to_vec) against the one growable vector the model knows.",
+        "minicbor::to_vec / to_vec_with on a thread with a history (after failed calls, after a big one, nested inside another to_vec) against the one growable vector the model knows; "
+        "encode::ArrayIter / MapIter over exact, loose and filtering iterators into every bounded sink (model: the equivalent Encoder call chain); scripts of Encoder calls on ONE sink "
+        "carrying on after a call that did not fit (Sink.callSeq, theorems call_script / call_leaves_prefix / call_script_all_fit; a chunking-agnostic oracle).",
    design="5/C13", technique="Lean 4 proof (layout invariant L++A++F++R, induction over the chunk list; fuel-bounded std write_all loop proved adequate) + differential correspondence with in-orchestrator oracle",
    note="Box<[u8]> and Vec own their allocation, so no adjacent canary exists for them (safe-Rust bounds checks apply). Typed values reach the sinks through Encoder call chains and a "
         "handful of concrete types; that every Encode impl is such a chain is C01/C07's subject. The std::io writer is the harness' Limited writer."),
